@@ -259,6 +259,13 @@ class Sx:
     ndim = 0
 
     def __format__(self, spec):
+        # the token stands for the exact value; a non-empty format spec is logged so that a contract can decide whether
+        # that rendering of a double is exact (round-trips) or lossy
+        if spec:
+            FORMAT_LOG.append(spec)
+        return f"Sx#{self.n.id}"
+
+    def __str__(self):
         return f"Sx#{self.n.id}"
 
     def __repr__(self):
@@ -267,6 +274,9 @@ class Sx:
         if self.n.op == "v":
             return f"Sx({self.n.args[0]})"
         return f"Sx#{self.n.id}"
+
+
+FORMAT_LOG = []
 
 
 def _div(a, b):
